@@ -91,10 +91,14 @@ func fromRequest(v ssa.Value) bool {
 }
 
 func runC16(c *Ctx) {
+	c.R.Rule("RS-no-request-time-state", "request handling writes no state that outlives the request (package-level variables, objects built at start-up, constructor variables captured by handlers) declared in the packages implementing this property", 1)
+	runStateless(c, "RS-no-request-time-state", "pkg/requests/util", "pkg/ip", "pkg/apis/middleware")
 	r := c.R
 	r.Rule("R1-header-readers", "closed-world enumeration of request-header reads: forwarding names only in the three accessors; dynamic keys only at reviewed sites", 14)
 	r.Rule("R2-guard-dominance", "header value returned only under IsProxied(req)==true; other uses only behind the guard", 6)
 	r.Rule("R3-flag-integrity", "RequestScope.ReverseProxy written once from NewScope's parameter fed by opts.ReverseProxy; IsProxied returns it or false", 4)
+	r.Rule("R6-peer-address-untouched", "with no header parser the client address is the peer address the server recorded: getRemoteIP parses RemoteAddr only, and no module code (a listener wrapper, a logging helper) writes Request.RemoteAddr from a header (shared with C15.R8, round 7)", 2)
+	runRemoteIPRule(c, "R6-peer-address-untouched")
 	r.Rule("R4-parser-construction", "real-client-IP parser installed only under ReverseProxy; stored/consulted through a closed set", 6)
 
 	// ---- R1 ---------------------------------------------------------------------------------
